@@ -189,3 +189,88 @@ fn c03_fold_n3() {
     run_case(steps_vec(&mut *arr), &flags);
     std::mem::forget(arr);
 }
+
+// ---- routing of the stack steps through the pipeline: a step named "stack" / "push" / "pop"
+// is executed by the pipeline itself (fresh stack per application), forward and - with push and
+// pop exchanged and the program reversed - inverse. Documented example (Rumination 002):
+// `stack push=1,2 | stack pop=1,2` swaps the first two coordinate elements; so does its inverse.
+fn stack_step(action: &'static str, args: Vec<f64>) -> Op {
+    let mut p = mk_params_s("stack");
+    p.text.insert("action", sstring(action));
+    p.series.insert(action, args);
+    Op {
+        descriptor: mk_descriptor(InnerOp::default(), InnerOp::default(), true, false),
+        params: std::mem::ManuallyDrop::into_inner(p),
+        steps: Vec::new(),
+        id: nil_handle(),
+    }
+}
+
+fn legacy_step(name: &'static str, flags: [&'static str; 2]) -> Op {
+    let mut p = mk_params_s(name);
+    p.boolean.insert(flags[0]);
+    p.boolean.insert(flags[1]);
+    Op {
+        descriptor: mk_descriptor(InnerOp::default(), InnerOp::default(), true, false),
+        params: std::mem::ManuallyDrop::into_inner(p),
+        steps: Vec::new(),
+        id: nil_handle(),
+    }
+}
+
+fn pipe_of(steps: Vec<Op>) -> std::mem::ManuallyDrop<Op> {
+    std::mem::ManuallyDrop::new(Op {
+        descriptor: mk_descriptor(InnerOp(pipeline_fwd), InnerOp(pipeline_inv), true, false),
+        params: std::mem::ManuallyDrop::into_inner(mk_params_s("pipeline")),
+        steps,
+        id: nil_handle(),
+    })
+}
+
+// @harness c03_stack_routing prop=C03 tier=quick cap=1200 stubs="M-BTREE, core::result::unwrap_failed" bound="pipeline `stack push=1,2 | stack pop=1,2`, 2 tuples all f64, both directions, applied twice: elements 1,2 swapped, others untouched, count = n; the stack does not leak into the second application"
+#[kani::proof]
+#[kani::stub(core::result::unwrap_failed, stub_unwrap_failed)]
+#[kani::unwind(12)]
+fn c03_stack_routing() {
+    let mut arr = std::mem::ManuallyDrop::new([stack_step("push", vec![1., 2.]), stack_step("pop", vec![1., 2.])]);
+    let pipe = pipe_of(steps_vec(&mut *arr));
+    let ctx = NullCtx;
+    let a = any_c4();
+    let b = any_c4();
+    let fwd: bool = nd();
+    let mut d = [a, b];
+    let n = if fwd { pipeline_fwd(&pipe, &ctx, &mut d) } else { pipeline_inv(&pipe, &ctx, &mut d) };
+    assert!(n == 2);
+    assert!(beq(d[0].0[0], a.0[1]) && beq(d[0].0[1], a.0[0]) && beq(d[0].0[2], a.0[2]) && beq(d[0].0[3], a.0[3]));
+    assert!(beq(d[1].0[0], b.0[1]) && beq(d[1].0[1], b.0[0]) && beq(d[1].0[2], b.0[2]) && beq(d[1].0[3], b.0[3]));
+    // a second application starts from an empty stack again: same effect, back to the original
+    let n = if fwd { pipeline_fwd(&pipe, &ctx, &mut d) } else { pipeline_inv(&pipe, &ctx, &mut d) };
+    assert!(n == 2);
+    assert!(beq4(&d[0], &a) && beq4(&d[1], &b));
+    kani::cover!(fwd);
+    kani::cover!(!fwd);
+}
+
+// @harness c03_legacy_routing prop=C03 tier=quick cap=1200 stubs="M-BTREE" bound="pipeline `push v_1 v_2 | pop v_1 v_2` (legacy steps), 2 tuples all f64, both directions: identity, count = n; a lone `pop v_1` underflows: element NaN, count 0"
+#[kani::proof]
+#[kani::unwind(12)]
+fn c03_legacy_routing() {
+    let mut arr = std::mem::ManuallyDrop::new([legacy_step("push", ["v_1", "v_2"]), legacy_step("pop", ["v_1", "v_2"])]);
+    let pipe = pipe_of(steps_vec(&mut *arr));
+    let ctx = NullCtx;
+    let a = any_c4();
+    let b = any_c4();
+    let fwd: bool = nd();
+    let mut d = [a, b];
+    let n = if fwd { pipeline_fwd(&pipe, &ctx, &mut d) } else { pipeline_inv(&pipe, &ctx, &mut d) };
+    assert!(n == 2);
+    assert!(beq4(&d[0], &a) && beq4(&d[1], &b));
+    // underflow: a pop with nothing on the (fresh) stack
+    let mut arr1 = std::mem::ManuallyDrop::new([legacy_step("pop", ["v_1", "v_1"])]);
+    let lone = pipe_of(steps_vec(&mut *arr1));
+    let mut d = [a, b];
+    let n = pipeline_fwd(&lone, &ctx, &mut d);
+    assert!(n == 0);
+    assert!(d[0].0[0].is_nan() && d[1].0[0].is_nan());
+    kani::cover!(fwd);
+}
